@@ -37,7 +37,8 @@ def scenario(args):
         s.op(f"run {rng.choice([0, 50, 300, 2000])}")
         # API history
         for _ in range(rng.randint(1, 5)):
-            act = rng.choice(["restart", "restartstream", "rm-readd", "consentlost", "send", "run", "blackout", "reexchange"])
+            act = rng.choice(["restart", "restartstream", "rm-readd", "consentlost", "send", "run", "blackout", "reexchange",
+                              "force-remote", "force-remote", "force-pair", "force-fresh"])
             ag = rng.choice("AB")
             other = "B" if ag == "A" else "A"
             sid = sids[ag][-1]
@@ -66,6 +67,30 @@ def scenario(args):
                 s.op(f"net blackout * * {now} {now + rng.choice([3000, 40000])}")
             elif act == "reexchange":
                 exchange(s, rng, cfg, sids)
+            elif act == "force-remote":
+                # forced pair selection: the peer's real address, an address family / transport nothing local matches, garbage
+                comp = rng.randint(1, cfg["ncomp"])
+                peer = [m.group(1) for e in s.events()
+                        for m in [re.match(rf"t=\d+ {other} new-candidate \d+ type=0 .*comp={comp} .* addr=(\S+) base", e)] if m]
+                kind = rng.choice(["peer", "peer", "v6", "tcp", "unreachable"])
+                if kind == "peer" and peer:
+                    ip, port = rng.choice(peer).rsplit(":", 1)
+                    s.op(f"selremote {ag} {sid} {comp} {ip} {port}")
+                elif kind == "v6":
+                    s.op(f"selremote {ag} {sid} {comp} ::1 {rng.randrange(1024, 65000)}")
+                elif kind == "tcp":
+                    s.op(f"selremote {ag} {sid} {comp} 127.0.1.1 {rng.randrange(1024, 65000)} {rng.choice(['tcp-act', 'tcp-pass'])}")
+                else:
+                    s.op(f"selremote {ag} {sid} {comp} 127.0.9.9 {rng.randrange(1024, 65000)}")
+            elif act == "force-pair":
+                s.op(f"selpair {ag} {sid} {rng.randint(1, cfg['ncomp'])} {rng.choice(['1', '2', '3', 'zz'])} {rng.choice(['1', '2', 'remote1', 'zz'])}")
+            elif act == "force-fresh":
+                # a stream that never gathered: no local candidate can match
+                ev, st = s.op(f"stream {ag} 1")
+                nid = int(st.split()[2])
+                s.op(f"attach {ag} {nid}")
+                s.op(f"selremote {ag} {nid} 1 {rng.choice(['127.0.1.1', '::1'])} 4242")
+                s.op(f"rmstream {ag} {nid}")
             s.op(f"run {rng.choice([0, 20, 200, 3000, 35000])}")
             # getter == last announced, sampled after every dispatch batch
         s.op("runidle 60000")
@@ -122,7 +147,14 @@ def analyse(s, finals):
                 if k[0] == w[1] and k[1] == int(w[2]):
                     selected_since[k] = False
             gathering_runs.setdefault((w[1], int(w[2])), [0, 0])[0] += 1
-        for e in evs:
+        need = []
+        for e in evs + ["<end-of-op>"]:
+            if e == "<end-of-op>":
+                for key, st in need:
+                    if not selected_since.get(key):
+                        bad.append(("pair-not-announced", f"{key} announced {st} during `{op[:60]}` but no new-selected-pair "
+                                                           f"announcement had been made when that operation returned"))
+                continue
             m = EV_STATE.match(e)
             if m:
                 nstate += 1
@@ -138,7 +170,9 @@ def analyse(s, finals):
                     if not have:
                         bad.append(("no-selected-pair", f"{key} announced {st} but no selected pair exists: {e}"))
                     elif not selected_since.get(key):
-                        bad.append(("pair-not-announced", f"{key} announced {st} before any new-selected-pair announcement"))
+                        # the statement allows the announcement to follow within the same call / dispatch batch
+                        # (forced selection emits the state changes first): decided at the end of this operation
+                        need.append((key, st))
                 continue
             mm = re.match(r"t=\d+ (\w+) selected (\d+) (\d+) ", e)
             if mm:
@@ -183,6 +217,7 @@ def run(tier, seed):
         if not ok:
             chk.note("harness build failed: " + log[-1500:]); st["libs"] = False; st["log"] = log
         else:
+            sc.run_corpus(exe, "C11", ofail)
             n = 400 if tier == "quick" else 8000
             res = simlib.run_parallel(scenario, [(exe, seed * 100000 + i, tier) for i in range(n)])
             kinds = {}
